@@ -120,4 +120,10 @@ CONFIG = {
         "thorough": {'checks': 400000, 'shards': 14, 'timeout': 3600, 'shrinktime': '60s'},
         "assumptions": ['Let is only called from bodies that already declared a variable', 'SetOrLet is not used on global or built-in names', 'LetGlobal is used with a non-nil VarMap'],
     },
+    'C11': {
+        "quick": {'checks': 400, 'shards': 4, 'timeout': 900},
+        "thorough": {'checks': 30000, 'shards': 14, 'timeout': 7200, 'shrinktime': '60s'},
+        "assumptions": ['interleavings are sampled, not enumerated', 'AddGlobal/loader edits concurrent with executions either touch unrelated keys/files or rewrite the identical value/content, so the serial expectation is well defined'],
+        'race': True,
+    },
 }
